@@ -366,6 +366,124 @@ def rate_array_scan_items(tier):
     return items
 
 
+def _line_tails(body, tails):
+    """abstract run over a template body: `tails` is the set of possible texts emitted since the last line break before the
+    current point (expressions emit an opaque mark that contains no line break - sound for the statement emitters, whose own
+    text starts the statement); returns (possible tails after the body, [(tail, expr node)] for every expression reached)."""
+    hits = []
+    for n in body:
+        if isinstance(n, nodes.Output):
+            for x in n.nodes:
+                if isinstance(x, nodes.TemplateData):
+                    d = x.data
+                    tails = {d.rsplit("\n", 1)[1]} if "\n" in d else {t + d for t in tails}
+                else:
+                    hits += [(t, x) for t in tails]
+                    tails = {t + "\u00b7" for t in tails}
+        elif isinstance(n, nodes.For):
+            t1, h1 = _line_tails(n.body, set(tails))
+            t2, h2 = _line_tails(n.body, set(t1))           # second and later iterations start where the previous one ended
+            t3, h3 = _line_tails(n.else_, set(tails))
+            hits += h1 + h2 + h3
+            tails = set(tails) | t1 | t2 | t3
+        elif isinstance(n, nodes.If):
+            acc = set()
+            for b in [n.body] + [e.body for e in n.elif_] + [n.else_]:
+                tb, hb = _line_tails(b, set(tails))
+                acc |= tb
+                hits += hb
+            tails = acc | (set(tails) if not n.else_ else set())
+        elif isinstance(n, (nodes.Macro, nodes.CallBlock, nodes.FilterBlock, nodes.With, nodes.Block)):
+            tails, hb = _line_tails(n.body, set(tails))
+            hits += hb
+        if len(tails) > 64:
+            tails = set(sorted(tails)[:64])
+    return tails, hits
+
+
+def comment_glue_items(tier):
+    """every statement emitter ({{ ... | stmwrap(...) }}) of every C/C++ template starts on code, not inside a `//` comment:
+    jinja's whitespace control (`{%-`, `-%}`) is applied by the lexer, so the template AST already holds the text as it will be
+    joined; the obligation is that no possible text between the last line break and a statement emitter contains `//`."""
+    env = env_for("cvode")
+    items, n_sites = [], 0
+    for name in sorted(env.list_templates()):
+        if not name.endswith((".cpp.j2", ".cu.j2", ".h.j2")):
+            continue
+        try:
+            src = env.loader.get_source(env, name)[0]
+            ast = env.parse(src)
+        except Exception as e:
+            items.append(item(f"tmpl/{name}/statement-emitters-outside-comments", False, f"template does not parse: {e}", status="unknown"))
+            continue
+        _, hits = _line_tails(ast.body, {""})
+        st = [(t, x) for t, x in hits if "stmwrap" in etext(x)]
+        if not st:
+            continue
+        n_sites += len({id(x) for _, x in st})
+        bad = sorted({f"line {x.lineno}: {{{{ {etext(x)[:50]} }}}} after {t.strip()[:40]!r}" for t, x in st if "//" in t})
+        items.append(item(f"tmpl/{name}/statement-emitters-outside-comments", not bad, "; ".join(bad)[:500] or f"{len({id(x) for _, x in st})} statement emitters"))
+    items.append(item("tmpl/statement-emitters-found", n_sites > 0, f"{n_sites} statement emitters in the C/C++ templates"))
+    return items
+
+
+def constants_template_items(tier):
+    """C11: the per-species binding-energy constant is emitted for every surface species of the network, once, as the species' own
+    value written by str(float) (the shortest text that reads back as the same double) - no formatting filter in between"""
+    ast, src = parse("base/cpp/src/naunet_constants.cpp.j2")
+    ss = [s for s in sites(ast) if "eb_" in s.literal]
+    items = [item("tmpl/constants/one-binding-energy-site", len(ss) == 1, f"{ss}")]
+    if len(ss) == 1:
+        s0 = ss[0]
+        ex = [etext(e) for e in s0.exprs]
+        lit = re.sub(r"\s+", " ", "".join(p if isinstance(p, str) else "\u00a7" for p in s0.parts))
+        items.append(item("tmpl/constants/binding-energy-emitted-verbatim",
+                          "s.eb" in ex and re.search(r"double eb_\u00a7 = \u00a7;", lit) is not None and ex[ex.index("s.eb") - 1] == "s.alias", f"{ex} in {lit!r}"))
+        items.append(item("tmpl/constants/over-all-surface-species", s0.loop_iters() == ["network.species|selectattr('is_surface')"] and not s0.guards, f"{s0.loop_iters()} {s0.guards}"))
+    return items
+
+
+def numdens_items(tier):
+    """C01 (temperature equation): the particle density `npar` of the rendered equation is GetNumDens(y), and the rendered
+    GetNumDens returns the sum of the NSPECIES species abundances - not of all NEQUATIONS slots (the last one is the
+    temperature).  The function body is taken from the rendered naunet_physics source and executed by the mini C front end
+    with symbolic NSPECIES; the summation loop is cut at its contract (partial-sum invariant)."""
+    from .native_ode import render, networks, strip_comments, function_body
+    from pyvc import cmini
+    items = []
+    label, fac = next(x for x in networks("quick", 0) if x[0] == "cooling-1")
+    I, Rl = z3.IntSort(), z3.RealSort()
+    for backend in [("cvode", "dense", "cpu"), ("cvode", "sparse", "cpu"), ("cvode", "cusparse", "gpu"), ("odeint", "rosenbrock4", "cpu")]:
+        pre = f"tmpl/{'/'.join(backend[:2])}/GetNumDens"
+        t0 = time.time()
+        files = render(fac(), *backend, jac_pattern=False)
+        ext = "cu" if backend[2] == "gpu" else "cpp"
+        fexn = f"src/naunet_fex.{ext}" if backend[0] == "cvode" else "src/naunet_ode.cpp"
+        fex = strip_comments(files[fexn])
+        binds = [re.sub(r"\s+", "", m.group(1)) for m in re.finditer(r"\bnpar\s*=\s*([^;]+);", fex)]
+        items.append(item(f"{pre}/npar-bound-to-GetNumDens-of-the-state", bool(binds) and all(b in ("GetNumDens(y)", "GetNumDens(y_cur)") for b in binds), f"{binds}"))
+        body = function_body(strip_comments(files.get(f"src/naunet_physics.{ext}", "")), r"double\s+GetNumDens\s*\(\s*double\s*\*\s*y\s*\)\s*\{")
+        try:
+            stmts = cmini.parse_body(cmini.strip(body))
+            NS, NE, TH = z3.Int("NSPECIES"), z3.Int("NEQUATIONS"), z3.Int("THERMAL")
+            y = z3.Const("y", z3.ArraySort(I, Rl))
+            ex = cmini.Exec({"NSPECIES": NS, "NEQUATIONS": NE, "IDX_TGAS": NS, "THERMAL": TH}, {}, max_unroll=0)
+            st = ex.run(stmts, cmini.State({}, {"y": y}))
+            hyp = [NS >= 0, TH == 1, NE == z3.If(NS + TH > 0, NS + TH, 1)]   # the temperature equation exists: THERMAL is 1
+            hyp = hyp + list(getattr(ex, "sum_instances", []))
+            want = cmini.Exec.SUM(y, z3.IntVal(0), NS)
+            claim = z3.And(st.returned, st.retval == want)
+            stt, be, secs, model = smt.check_valid(hyp, claim, timeout_ms=20000)
+        except cmini.CMiniError as e:
+            items.append(item(f"{pre}/returns-sum-of-species-abundances", False, f"outside the fragment: {e}", "cmini", status="unknown"))
+            continue
+        detail = f"retval = {z3.simplify(st.retval)}"
+        if stt == "refuted" and model is not None:
+            detail += f"; countermodel: NSPECIES={model.eval(NS)}, THERMAL={model.eval(TH)}, y[NSPECIES]={model.eval(z3.Select(y, NS), model_completion=True)}"
+        items.append(item(f"{pre}/returns-sum-of-species-abundances", stt == "proved", detail, f"cmini+{be}", status=stt, seconds=time.time() - t0))
+    return items
+
+
 def _zero_init_in_same_block(txt, call_pos, sym, macro):
     """the nearest enclosing block of the call contains, before the call and at the same brace depth,
     `<type> sym[MACRO] = {0.0};`"""
